@@ -427,8 +427,21 @@ pub(crate) fn basic_latin_to_ascii_stride(
     let (src_first, src_second) = split_u16_stride(src_stride);
     let first_simd: u16x8 = (*src_first).into();
     let second_simd: u16x8 = (*src_second).into();
+    if let Some((c, pos)) = validate_basic_latin_simd(first_simd, second_simd) {
+        // Only store the Basic Latin prefix so that the destination
+        // is left unmodified from the non-Basic Latin unit onwards.
+        pack_prefix_to(src_stride, dst_stride, pos);
+        return Some((c, pos));
+    }
     pack_simd_to(first_simd, second_simd, dst_stride);
-    validate_basic_latin_simd(first_simd, second_simd)
+    None
+}
+
+#[inline(always)]
+fn pack_prefix_to(src_stride: &[u16; STRIDE], dst_stride: &mut [u8; STRIDE], len: usize) {
+    for (src_slot, dst_slot) in src_stride.iter().zip(dst_stride.iter_mut()).take(len) {
+        *dst_slot = *src_slot as u8;
+    }
 }
 
 #[allow(dead_code)]
@@ -499,16 +512,18 @@ pub(crate) fn basic_latin_to_ascii_double_stride(
     let (src_third, src_fourth) = split_u16_stride(&src_double_stride[1]);
     let third_simd: u16x8 = (*src_third).into();
     let fourth_simd: u16x8 = (*src_fourth).into();
-    pack_simd_to(first_simd, second_simd, &mut dst_double_stride[0]);
     if simd_is_basic_latin(first_simd | second_simd | third_simd | fourth_simd) {
+        pack_simd_to(first_simd, second_simd, &mut dst_double_stride[0]);
         pack_simd_to(third_simd, fourth_simd, &mut dst_double_stride[1]);
         return None;
     }
     if let Some((c, pos)) = validate_basic_latin_simd(first_simd, second_simd) {
+        pack_prefix_to(&src_double_stride[0], &mut dst_double_stride[0], pos);
         return Some((c, pos));
     }
-    pack_simd_to(third_simd, fourth_simd, &mut dst_double_stride[1]);
+    pack_simd_to(first_simd, second_simd, &mut dst_double_stride[0]);
     if let Some((c, pos)) = validate_basic_latin_simd(third_simd, fourth_simd) {
+        pack_prefix_to(&src_double_stride[1], &mut dst_double_stride[1], pos);
         return Some((c, STRIDE + pos));
     }
     debug_assert!(false);
